@@ -512,6 +512,8 @@ def rtl_terms(rtl):
 
 
 def check_design(clif_text, layout, rtl, timeout_ms=20000):
+    if layout.get("comb_interpreted"):
+        raise Unsupported(f"{layout['comb_interpreted']} comb statement(s) are run by the interpreter between JIT chunks")
     """comb-only designs: run every dumped function in order over one memory"""
     if rtl["states"] or layout.get("ff_bytes", 0) or layout.get("children", 0):
         raise Unsupported("sequential or hierarchical design (comb-only subset)")
